@@ -281,9 +281,18 @@ protected:
 
       // A malformed header can never become a frame: fail the connection now
       // instead of treating it as "incomplete" and buffering forever.
-      if (WebSocketFrame::inspectHeader(view) == WsHeaderStatus::ProtocolError)
+      const auto headerStatus = WebSocketFrame::inspectHeader(view, _maxFrameSize);
+      if (headerStatus == WsHeaderStatus::ProtocolError)
       {
         failSession(sid, 1002, "Protocol error");
+        return;
+      }
+      // Refuse a frame whose DECLARED length exceeds the limit as soon as the
+      // header is readable; waiting for the payload would let the peer make us
+      // buffer up to the declared length (up to 2^63 bytes).
+      if (headerStatus == WsHeaderStatus::TooLarge)
+      {
+        failSession(sid, 1009, "Message Too Big");
         return;
       }
 
